@@ -122,6 +122,25 @@ def run(ck):
                              "meaning": "schedhlrx k A bytes: high-level command A parked before its k-th lock acquisition (mutexes and rwlocks) while the receiver thread processes the uplink bytes (a node-new notice: writer of the board table); the calls did not return within 15 s",
                              "reason": "calls blocked forever under this schedule (deadlock)"})
     ck.oblige("forced-schedule deadlock probe with rwlocks in the gate: %d schedules return" % len(probes2), hung2 == 0, "%d hung" % hung2)
+    # getters against the receiver's state handlers: the whole-track snapshot and the train / segment getters are parked before
+    # their k-th lock acquisition while the receiver processes an occupancy / address report (segments, then trains) or
+    # against each other (schedhl)
+    occ = hexs(flowgen.frame(flowgen.upmsg([], 4, 0xA0, [0]))); adr = hexs(flowgen.frame(flowgen.upmsg([], 5, 0xA3, [0, 3, 0x80])))
+    getters = ("getstate", "trainpos t1", "trainst t1", "segst seg1")
+    probes3 = [["schedhlrx %d %s %s" % (k, job, up)] for k in range(1, 13) for job in getters for up in (occ, adr)]
+    probes3 += [["schedhl %d %s %s" % (k, ja, jb)] for k in range(1, 13) for ja in getters for jb in getters if ja != jb and "getstate" in (ja, jb)]
+    with ThreadPoolExecutor(8) as ex:
+        res3 = list(ex.map(one2, probes3))
+    hung3 = 0
+    for body, rc, out in res3:
+        if rc == -999 or "mark done" not in out:
+            hung3 += 1
+            if hung3 <= 2:
+                ck.violation("deadlock.forced-schedule-getter", {"property": "C11", "script": ["start 0 $VERIF/corpus/C10/cfg 0", "logw 0", "nodenew 0 0 0 0 da000d680001ee"] + body + ["flush", "mark done"],
+                             "driver_rc": rc, "observed": out[-400:],
+                             "meaning": "schedhlrx k G bytes: getter G parked before its k-th lock acquisition while the receiver thread processes an occupancy / address report; schedhl k G H: while getter H runs; the calls did not return within 15 s",
+                             "reason": "calls blocked forever under this schedule (deadlock)"})
+    ck.oblige("forced-schedule deadlock probe, getters vs. the receiver's occupancy handlers and vs. each other: %d schedules return" % len(probes3), hung3 == 0, "%d hung" % hung3)
     # lock-leak battery on the real code: public high-level calls with argument classes {valid, unknown id,
     # unknown second id, out-of-range value, disconnected board} and uplink messages; after each, no library
     # lock may still be held (trylock probe while nothing is in flight)
